@@ -334,13 +334,143 @@ fn dup_batch_check(c: &Case, imp: &str) -> String {
             with.tpls.push(ok_tpl);
             let (e2, _) = register(&with);
             if !same_answer(&a2, &e2) {
-                out = format!("diff after a rejected batch naming `{}` twice ({}), adding the plain template `zz_ok` answers `{}` but a fresh instance given the same set answers `{}`", n.name, if variant == 0 { "first occurrence self-including" } else { "first occurrence with a dangling parent" }, a2.chars().take(120).collect::<String>(), e2.chars().take(120).collect::<String>());
+                out = format!("diff the resident set is no longer the accepted one: after a rejected batch naming `{}` twice ({}), adding the plain template `zz_ok` answers `{}` but a fresh instance given the same set answers `{}`", n.name, if variant == 0 { "first occurrence self-including" } else { "first occurrence with a dangling parent" }, a2.chars().take(120).collect::<String>(), e2.chars().take(120).collect::<String>());
                 break;
             }
         }
         out
     }));
     r.unwrap_or_else(|p| format!("diff panic {p}"))
+}
+
+/// The same set LOADED FROM FILES (`add_template_files` with explicit names; the sources are written
+/// under std::env::temp_dir()/tera_verif_c11_<pid>/ and removed afterwards) must be answered as by
+/// `add_raw_templates`: accepted with the same derived data, or rejected with the same error kind.
+/// "same" | "diff <description>"
+fn file_check(c: &Case, imp: &str) -> String {
+    let r = catch(std::panic::AssertUnwindSafe(|| {
+        let dir = std::env::temp_dir().join(format!("tera_verif_c11_{}", std::process::id()));
+        let _ = std::fs::create_dir_all(&dir);
+        let files: Vec<(std::path::PathBuf, Option<String>)> = c
+            .tpls
+            .iter()
+            .enumerate()
+            .map(|(i, t)| {
+                let path = dir.join(format!("t{i}.tpl"));
+                std::fs::write(&path, t.source()).expect("write template file");
+                (path, Some(t.name.clone()))
+            })
+            .collect();
+        let mut tera = engine(&c.prefixes);
+        let ans = match tera.add_template_files(files.clone()) {
+            Ok(()) => format!("ok {}", real_derived(&tera).canon()),
+            Err(e) => canon_err(&e),
+        };
+        for (p, _) in &files {
+            let _ = std::fs::remove_file(p);
+        }
+        let _ = std::fs::remove_dir(&dir);
+        ans
+    }));
+    match r {
+        Ok(ans) if same_answer(&ans, imp) => "same".into(),
+        Ok(ans) => format!(
+            "diff the set loaded from files with add_template_files is answered `{}` but add_raw_templates of the same (name, source) pairs answers `{}`: a cyclic or dangling set must be rejected with the corresponding error whatever call registers it",
+            ans.chars().take(140).collect::<String>(),
+            imp.chars().take(140).collect::<String>()
+        ),
+        Err(p) => format!("diff add_template_files panicked: {p}"),
+    }
+}
+
+/// For an accepted set registered under fallback prefixes: a LATE `set_fallback_prefixes` call
+/// (templates already added) must be refused and change nothing: derived data, `contains_template`
+/// of every name and written reference, every render, and the answer to a further plain add.
+/// "na" | "same" | "diff <description>"
+fn late_prefix_check(c: &Case, imp: &str, renderable: bool) -> String {
+    if !imp.starts_with("ok") || c.prefixes.is_empty() {
+        return "na".into();
+    }
+    let r = catch(std::panic::AssertUnwindSafe(|| {
+        let mut probes: Vec<String> = c.tpls.iter().map(|t| t.name.clone()).collect();
+        for t in &c.tpls {
+            probes.extend(t.all_includes());
+            probes.extend(t.parent.clone());
+        }
+        probes.sort();
+        probes.dedup();
+        for late in [vec![], vec!["zz/".to_string()], c.prefixes.iter().rev().cloned().collect::<Vec<_>>()] {
+            if late == c.prefixes {
+                continue;
+            }
+            let mut tera = engine(&c.prefixes);
+            if add_all(&mut tera, &c.tpls).is_err() {
+                return "na".to_string();
+            }
+            let observe = |t: &tera::Tera| -> (String, Vec<bool>, String) {
+                (real_derived(t).canon(), probes.iter().map(|p| t.contains_template(p)).collect(), if renderable { render_texts(t, c) } else { String::new() })
+            };
+            let before = observe(&tera);
+            if tera.set_fallback_prefixes(late.clone()).is_ok() {
+                return format!("diff set_fallback_prefixes({late:?}) was accepted although templates are registered");
+            }
+            let after = observe(&tera);
+            if before != after {
+                let what = if before.0 != after.0 { "the derived data" } else if before.1 != after.1 { "what contains_template answers" } else { "what the templates render" };
+                return format!(
+                    "diff a REFUSED late set_fallback_prefixes({late:?}) (prefixes {:?}) changed {what}: contains_template {:?} -> {:?}; renders `{}` -> `{}`",
+                    c.prefixes,
+                    probes.iter().zip(&before.1).collect::<Vec<_>>(),
+                    after.1,
+                    before.2.chars().take(120).collect::<String>(),
+                    after.2.chars().take(120).collect::<String>()
+                );
+            }
+            let ok_tpl = TplS::new("zz_ok");
+            let a2 = match tera.add_raw_template(&ok_tpl.name, &ok_tpl.source()) {
+                Ok(()) => format!("ok {}", real_derived(&tera).canon()),
+                Err(e) => canon_err(&e),
+            };
+            let mut with = c.clone();
+            with.tpls.push(ok_tpl);
+            let (e2, _) = register(&with);
+            if !same_answer(&a2, &e2) {
+                return format!(
+                    "diff after a REFUSED late set_fallback_prefixes({late:?}) (prefixes {:?}) adding the plain template `zz_ok` answers `{}` but a fresh instance given the same set answers `{}`: the refused call must not change how names resolve",
+                    c.prefixes,
+                    a2.chars().take(120).collect::<String>(),
+                    e2.chars().take(120).collect::<String>()
+                );
+            }
+        }
+        "same".to_string()
+    }));
+    r.unwrap_or_else(|p| format!("diff panic {p}"))
+}
+
+/// text (or error class) every template renders, for before / after comparisons
+fn render_texts(tera: &tera::Tera, c: &Case) -> String {
+    c.tpls
+        .iter()
+        .map(|t| match catch(std::panic::AssertUnwindSafe(|| tera.render(&t.name, &Context::new()))) {
+            Ok(Ok(s)) => format!("ok:{s}"),
+            Ok(Err(e)) => format!("err:{}", err_class(&canon_err(&e))),
+            Err(_) => "panic".to_string(),
+        })
+        .collect::<Vec<_>>()
+        .join("|")
+}
+
+/// the history / other-API variants of a set, first difference wins: "na" | "same" | "diff …"
+fn extra_checks(c: &Case, imp: &str, with_files: bool, renderable: bool) -> String {
+    let mut results = vec![dup_batch_check(c, imp), late_prefix_check(c, imp, renderable)];
+    if with_files {
+        results.push(file_check(c, imp));
+    }
+    if let Some(d) = results.iter().find(|r| r.starts_with("diff")) {
+        return d.clone();
+    }
+    if results.iter().any(|r| r == "same") { "same".into() } else { "na".into() }
 }
 
 /// a ring of `n` templates (include or extends edges i -> i+1 -> … -> 0), entered from a tail of
@@ -522,7 +652,9 @@ fn child_stream(kind: &str, quick: bool, seed: u64, start: u64, stride: u64, hi:
         };
         writeln!(w, "at {idx} dup").unwrap();
         w.flush().unwrap();
-        let dup = dup_batch_check(&c, &imp);
+        // (the file-based registration for every random set and a sample of the exhaustive ones)
+        let renderable = kind == "exh" || oracle(&c, &imp).is_none();
+        let dup = extra_checks(&c, &imp, kind == "rnd" || idx % 16 == 0, renderable);
         writeln!(w, "{idx}\t{imp}\t{renders}\t{hist}\u{2}{dup}").unwrap();
         idx += stride;
     }
@@ -537,7 +669,7 @@ fn child_reg(path: &str, two_step: Option<usize>) {
     start_watchdog(progress, 20);
     if two_step == Some(usize::MAX) {
         let (imp, _) = register(&c);
-        println!("{}", dup_batch_check(&c, &imp));
+        println!("{}", extra_checks(&c, &imp, true, oracle(&c, &imp).is_none()));
         return;
     }
     match two_step {
@@ -1043,7 +1175,7 @@ fn main() {
             println!("oracle on that answer: {:?}", two.and_then(|r| oracle(&c, &r)));
         }
         if j.get("dup_batch").is_some() {
-            println!("rejected batch naming the middle template twice, then a plain add, vs a fresh instance: {}", safe_dup(&c));
+            println!("rejected duplicate batch / refused late set_fallback_prefixes / registration from files: {}", safe_dup(&c));
         }
         if imp.starts_with("ok") {
             for t in &c.tpls {
@@ -1114,7 +1246,7 @@ fn main() {
                 let (is_exh, (idx, imp, renders, hist)) = &all_rows[i];
                 let c = case_of(&mut rgen, *is_exh, *idx);
                 let (hist, dup) = hist.split_once('\u{2}').unwrap_or((hist.as_str(), "na"));
-                report.count(&format!("history.rejected-batch-with-duplicate-names.{}", dup.split(' ').next().unwrap_or("")));
+                report.count(&format!("history.duplicate-batch / late-prefixes / from-files.{}", dup.split(' ').next().unwrap_or("")));
                 if dup != "na" {
                     report.oracle_checks += 1;
                 }
@@ -1273,7 +1405,7 @@ fn main() {
         j["dup_batch"] = serde_json::json!(true);
         report.violation(
             "property",
-            format!("the resident set is no longer the accepted one: {}", desc.strip_prefix("diff ").unwrap_or(d)),
+            desc.strip_prefix("diff ").unwrap_or(d).to_string(),
             j,
         );
     }
